@@ -11,7 +11,8 @@ ANCHORS = ["ProtobufFileWriter.write_to_file", "ProtobufFileReader.open"]
 REQUIRED = ["contract.pb.write_to_file", "role.static", "role.dynamic", "role.phantom", "role.environment",
             "prediction.trajectory", "prediction.set", "prediction.none", "dynamic.default-arguments",
             "phantom.no-prediction", "static.signals", "sign.virtual.True", "light.active.False",
-            "light.offset.positive", "goal.position.lanelets", "goal.lanelets-after-positionless-goal-state", "lanelet.3d", "light.without-cycle", "value.interval", "initial.position.region",
+            "light.offset.positive", "goal.position.lanelets", "goal.lanelets-after-positionless-goal-state", "lanelet.3d", "light.without-cycle",
+            "sign.first-occurrence-on-non-referencing-lanelet", "value.interval", "initial.position.region",
             "traj-class.PMState", "fixture-file"]
 ASSUMPTIONS = ["derived data is not compared (center vertices, light colours, lanelet assignments)",
                "None and empty are the same for optional id sets and series"]
